@@ -10,6 +10,7 @@ import ErgoProofs.Lemmas.Ready
 import ErgoProofs.Lemmas.StorageThm
 import ErgoProofs.Lemmas.PlanShape
 import ErgoProofs.Lemmas.PropsAux
+import ErgoProofs.Lemmas.CodecInst
 namespace Ergo
 
 /-- claim order, prune set and compaction output do not depend on map iteration order (any permutation of the item and
@@ -42,9 +43,9 @@ theorem C12_replay_total (evs : List Event) :
     | duplicate i => exact Or.inr (Or.inr (Or.inr ⟨i, rfl⟩))
 
 /-- every mutation other than compact only extends the recorded history (byte level: appends) … -/
-theorem C12_append_extends {classify : Storage.Bytes → Storage.LineClass} {encode : Event → Storage.Bytes} {limit : Nat}
-    (hc : Storage.Codec classify encode) (f : Storage.Bytes) (es evs : List Event)
-    (hr : Storage.readEvents classify limit f = .ok es) (hs : Storage.Short encode limit evs) :
+theorem C12_append_extends {W : Event → Prop} {classify : Storage.Bytes → Storage.LineClass} {encode : Event → Storage.Bytes} {limit : Nat}
+    (hc : Storage.CodecOn W classify encode) (f : Storage.Bytes) (es evs : List Event)
+    (hr : Storage.readEvents classify limit f = .ok es) (hs : Storage.Short W encode limit evs) :
     Storage.readEvents classify limit (Storage.appendFile classify encode f evs) = .ok (es ++ evs) :=
   (Storage.appendFile_reads hc f es evs hr hs).1
 
@@ -57,5 +58,21 @@ theorem C12_history_grows (log : List Event) (env : Env) (req : Request) (hreq :
 theorem C12_failed_or_readonly_writes_nothing (log : List Event) (env : Env) (req : Request)
     (h : (runCmd log env req).write = none) : (runCmd log env req).log = log :=
   runCmd_nowrite_unchanged log env req h
+
+
+/-- ergo's actual line format: appending a batch of well-formed events extends what is read by exactly that batch -/
+theorem C12_append_extends_json (ets : Event → String) {limit : Nat} (f : Storage.Bytes) (es evs : List Event)
+    (hr : Storage.readEvents Codec.classifyLine limit f = .ok es) (hs : Storage.Short Codec.Wf (Codec.encodeEvent ets) limit evs) :
+    Storage.readEvents Codec.classifyLine limit (Storage.appendFile Codec.classifyLine (Codec.encodeEvent ets) f evs) = .ok (es ++ evs) :=
+  (Storage.appendFile_reads (Codec.jsonCodec ets) f es evs hr hs).1
+
+/-- what a line means is a function of its bytes, and a written line means the event it was written for: state is a function of the log *file* -/
+theorem C12_written_line_means_its_event (ets : Event → String) (e : Event) (h : Codec.Wf e) :
+    Codec.classifyLine (Codec.encodeEvent ets e) = .ev e :=
+  Codec.classify_encode ets e h
+
+/-- time stamps are recorded as text: the text written for an instant before year 10000 reads back as that instant -/
+theorem C12_time_stamp_roundtrip (t : Time) (h : t < Time.maxT) : Time.parse (Time.format t) = some t :=
+  Time.parse_format t h
 
 end Ergo
